@@ -1,4 +1,5 @@
 import EdpVerif.Impl.Decode
+import EdpVerif.Generated.Misc
 /-
 Model of crates/edp_elixir_terms (range.rs, map_set.rs, date_time.rs, exceptions.rs, builders.rs) and of the
 proplist/map helpers of crates/erltf/src/term.rs (is_proplist, normalize_proplist, proplist_to_map,
@@ -9,6 +10,9 @@ notes/C20-fixes/ applied.
   `checked_add` is a range test, `usize` is 64 bits wide (`USIZE_MAX`), `T::try_from` is a range test (`intIn`).
 * `String` is its UTF-8 bytes; `String::from_utf8_lossy` is `lossy`.
 * `BTreeMap`/`BTreeSet` are association lists kept in order by `mapInsert`/`setInsert` under `Term.cmp`.
+* The limits of the checked constructors are the generated `Gen.C20_*` constants (tools/gen_misc.py `gen_c20`); key
+  names, key orders, field types, the day table and the leap rule are compared with the generated tables by
+  `C20_model_tables_are_the_source_tables`.
 -/
 namespace Edp.Ex
 open Edp
@@ -316,6 +320,45 @@ structure MapSet where
 
 def MapSet.ofValues (l : List Term) : MapSet := ⟨l.foldl setInsert []⟩
 
+/-- `BTreeSet::contains` (the ordered scan of `mapGet`) -/
+def setContains : List Term → Term → Bool
+  | [], _ => false
+  | t' :: r, t =>
+    match Term.cmp t t' with
+    | .lt => false
+    | .eq => true
+    | .gt => setContains r t
+
+/-- `BTreeSet::remove` -/
+def setRemove : List Term → Term → List Term
+  | [], _ => []
+  | t' :: r, t =>
+    match Term.cmp t t' with
+    | .lt => t' :: r
+    | .eq => r
+    | .gt => t' :: setRemove r t
+
+/-- `ElixirMapSet::new` -/
+def MapSet.empty : MapSet := ⟨[]⟩
+/-- `ElixirMapSet::insert` (the returned flag: the value was not there yet) -/
+def MapSet.insert (s : MapSet) (t : Term) : MapSet × Bool := (⟨setInsert s.elements t⟩, !setContains s.elements t)
+/-- `ElixirMapSet::remove` -/
+def MapSet.remove (s : MapSet) (t : Term) : MapSet × Bool := (⟨setRemove s.elements t⟩, setContains s.elements t)
+def MapSet.clear (_ : MapSet) : MapSet := ⟨[]⟩
+def MapSet.contains (s : MapSet) (t : Term) : Bool := setContains s.elements t
+def MapSet.len (s : MapSet) : Nat := s.elements.length
+def MapSet.isEmpty (s : MapSet) : Bool := s.elements.isEmpty
+/-- `union`: the merged iteration (an element present in both comes from `self`), collected into a set -/
+def MapSet.union (a b : MapSet) : MapSet := ⟨b.elements.foldl setInsert a.elements⟩
+def MapSet.intersection (a b : MapSet) : MapSet := ⟨a.elements.filter (setContains b.elements)⟩
+def MapSet.difference (a b : MapSet) : MapSet := ⟨a.elements.filter (fun e => !setContains b.elements e)⟩
+def MapSet.symmetricDifference (a b : MapSet) : MapSet :=
+  ⟨(b.elements.filter (fun e => !setContains a.elements e)).foldl setInsert
+    (a.elements.filter (fun e => !setContains b.elements e))⟩
+def MapSet.isSubset (a b : MapSet) : Bool := a.elements.all (setContains b.elements)
+def MapSet.isSuperset (a b : MapSet) : Bool := b.elements.all (setContains a.elements)
+def MapSet.isDisjoint (a b : MapSet) : Bool := a.elements.all (fun e => !setContains b.elements e)
+
 def MapSet.inner (s : MapSet) : List (Term × Term) := s.elements.foldl (fun m e => mapInsert m e (.list [])) []
 
 def MapSet.fields (s : MapSet) : List (Bytes × Term) :=
@@ -367,15 +410,37 @@ def Date.fromTerm (t : Term) : Option Date :=
     | _, _, _ => none
   | _ => none
 
-/-- the `microsecond` field: `{value, precision}`; a missing key or a non-2-tuple gives `(0, 0)`,
-a 2-tuple with a non-integer makes the whole `from_term` fail -/
+/-- `ElixirDate::is_leap_year` (`%` of Rust is the truncated remainder, `Int.tmod`) -/
+def isLeapYear (y : Int) : Bool :=
+  (Int.tmod y 4 == 0 && Int.tmod y 100 != 0) || Int.tmod y 400 == 0
+
+/-- the `match month` of `ElixirDate::try_new` (`none` is its `_ => return None` arm) -/
+def maxDay (y mo : Int) : Option Int :=
+  if mo = 1 ∨ mo = 3 ∨ mo = 5 ∨ mo = 7 ∨ mo = 8 ∨ mo = 10 ∨ mo = 12 then some 31
+  else if mo = 4 ∨ mo = 6 ∨ mo = 9 ∨ mo = 11 then some 30
+  else if mo = 2 then some (if isLeapYear y then 29 else 28)
+  else none
+
+/-- `ElixirDate::new`: no validation -/
+def Date.new (y mo d : Int) : Date := ⟨y, mo, d⟩
+
+/-- `ElixirDate::try_new` -/
+def Date.tryNew (y mo d : Int) : Option Date :=
+  if ¬ (Gen.C20_MONTH_LO ≤ mo ∧ mo ≤ Gen.C20_MONTH_HI) then none else
+  match maxDay y mo with
+  | none => none
+  | some mx => if d < 1 ∨ d > mx then none else some ⟨y, mo, d⟩
+
+/-- the `microsecond` field: `{value, precision}`; a missing key gives `(0, 0)`; an entry that is not a 2-tuple, or a
+2-tuple with a non-integer or an integer outside `u32` / `u8`, makes the whole `from_term` fail -/
 def usPart (m : List (Term × Term)) : Option (Int × Int) :=
   match fld m kMicrosecond with
+  | none => some (0, 0)
   | some (.tuple [val, prec]) =>
     match u32In val, u8In prec with
     | some v, some p => some (v, p)
     | _, _ => none
-  | _ => some (0, 0)
+  | some _ => none
 
 structure Time where
   hour : Int
@@ -387,6 +452,19 @@ structure Time where
 
 def Time.WF (t : Time) : Prop := InU8 t.hour ∧ InU8 t.minute ∧ InU8 t.second ∧ InU32 t.usValue ∧ InU8 t.usPrecision
 instance (t : Time) : Decidable t.WF := by unfold Time.WF; infer_instance
+
+/-- `ElixirTime::new`: no validation, but the precision is clamped (`precision.min(6)`) -/
+def Time.new (h mi s us p : Int) : Time := ⟨h, mi, s, us, min p Gen.C20_CLAMP⟩
+
+/-- `ElixirTime::try_new` -/
+def Time.tryNew (h mi s us p : Int) : Option Time :=
+  if h > Gen.C20_HOUR ∨ mi > Gen.C20_MINUTE ∨ s > Gen.C20_SECOND then none
+  else if us > Gen.C20_MICRO then none
+  else if p > Gen.C20_PRECISION then none
+  else some ⟨h, mi, s, us, p⟩
+
+def Time.hms (h mi s : Int) : Time := Time.new h mi s 0 0
+def Time.tryHms (h mi s : Int) : Option Time := Time.tryNew h mi s 0 0
 
 def Time.fields (x : Time) : List (Bytes × Term) :=
   [(kStruct, .atom mTime), (kHour, .int x.hour), (kMinute, .int x.minute), (kSecond, .int x.second),
@@ -418,6 +496,24 @@ def Naive.WF (x : Naive) : Prop :=
   InI32 x.year ∧ InU8 x.month ∧ InU8 x.day ∧ InU8 x.hour ∧ InU8 x.minute ∧ InU8 x.second ∧ InU32 x.usValue ∧ InU8 x.usPrecision
 instance (x : Naive) : Decidable x.WF := by unfold Naive.WF; infer_instance
 
+/-- `ElixirNaiveDateTime::new`: the precision is clamped -/
+def Naive.new (y mo d h mi s us p : Int) : Naive := ⟨y, mo, d, h, mi, s, us, min p Gen.C20_CLAMP⟩
+
+/-- `ElixirNaiveDateTime::try_new` (also the validation of `ElixirDateTime::try_utc`) -/
+def Naive.tryNew (y mo d h mi s us p : Int) : Option Naive :=
+  match Date.tryNew y mo d with
+  | none => none
+  | some _ =>
+    match Time.tryNew h mi s us p with
+    | none => none
+    | some _ => some ⟨y, mo, d, h, mi, s, us, p⟩
+
+def Naive.fromDateTime (d : Date) (t : Time) : Naive :=
+  ⟨d.year, d.month, d.day, t.hour, t.minute, t.second, t.usValue, t.usPrecision⟩
+/-- `to_date` / `to_time` go through `new`, so the precision is clamped again -/
+def Naive.toDate (x : Naive) : Date := Date.new x.year x.month x.day
+def Naive.toTime (x : Naive) : Time := Time.new x.hour x.minute x.second x.usValue x.usPrecision
+
 def Naive.fields (x : Naive) : List (Bytes × Term) :=
   [(kStruct, .atom mNaiveDateTime), (kYear, .int x.year), (kMonth, .int x.month), (kDay, .int x.day),
     (kHour, .int x.hour), (kMinute, .int x.minute), (kSecond, .int x.second),
@@ -447,6 +543,23 @@ structure DateTime where
 def DateTime.WF (x : DateTime) : Prop :=
   x.naive.WF ∧ InI32 x.utcOffset ∧ InI32 x.stdOffset ∧ IsStr x.timeZone ∧ IsStr x.zoneAbbr
 instance (x : DateTime) : Decidable x.WF := by unfold DateTime.WF; infer_instance
+
+def sEtcUtc : Bytes := [69, 116, 99, 47, 85, 84, 67]  -- Etc/UTC
+def sUtc : Bytes := [85, 84, 67]  -- UTC
+
+/-- `ElixirDateTime::utc` -/
+def DateTime.utc (y mo d h mi s us p : Int) : DateTime := ⟨Naive.new y mo d h mi s us p, sEtcUtc, sUtc, 0, 0⟩
+/-- `ElixirDateTime::try_utc` -/
+def DateTime.tryUtc (y mo d h mi s us p : Int) : Option DateTime :=
+  (Naive.tryNew y mo d h mi s us p).map fun n => ⟨n, sEtcUtc, sUtc, 0, 0⟩
+/-- `ElixirDateTime::with_timezone` -/
+def DateTime.withTimezone (y mo d h mi s us p : Int) (tz za : Bytes) (uo so : Int) : DateTime :=
+  ⟨Naive.new y mo d h mi s us p, tz, za, uo, so⟩
+def DateTime.toDate (x : DateTime) : Date := x.naive.toDate
+def DateTime.toTime (x : DateTime) : Time := x.naive.toTime
+/-- `to_naive` goes through `ElixirNaiveDateTime::new` -/
+def DateTime.toNaive (x : DateTime) : Naive :=
+  Naive.new x.naive.year x.naive.month x.naive.day x.naive.hour x.naive.minute x.naive.second x.naive.usValue x.naive.usPrecision
 
 def DateTime.fields (x : DateTime) : List (Bytes × Term) :=
   [(kStruct, .atom mDateTime), (kYear, .int x.naive.year), (kMonth, .int x.naive.month), (kDay, .int x.naive.day),
@@ -592,6 +705,52 @@ def kwBuild (ps : List (Bytes × Term)) : Term := .list (ps.map fun kv => .tuple
 /-- `AtomKeyMapBuilder`: `insert*` calls in order, then `build` -/
 def akmBuild (ps : List (Bytes × Term)) : Term := .map (mkMap ps)
 
+/-- a value handed to a generic `put`/`insert` (`V: Into<OwnedTerm>`), with the `From` impls of term.rs -/
+inductive BVal where
+  | int (i : Int)        -- i64 / i32 / u8 …: `Integer`
+  | bool (b : Bool)      -- `OwnedTerm::boolean`
+  | str (s : Bytes)      -- `&str` / `String`: `OwnedTerm::String`
+  | term (t : Term)      -- an `OwnedTerm` itself
+
+def kFalse : Bytes := [102, 97, 108, 115, 101]  -- false
+
+def BVal.into : BVal → Term
+  | .int i => .int i
+  | .bool b => .atom (if b then kTrue else kFalse)
+  | .str s => .str s
+  | .term t => t
+
+/-- one call on a `KeywordListBuilder` / `AtomKeyMapBuilder` -/
+inductive BOp where
+  | put (k : Bytes) (v : BVal)                 -- `put` / `insert`
+  | putAtom (k a : Bytes)                      -- `put_atom` / `insert_atom`
+  | putFlag (k : Bytes)                        -- `put_flag` (keyword lists only)
+  | putTerm (k : Bytes) (t : Term)             -- `put_term` / `insert_term`
+  | putIf (c : Bool) (k : Bytes) (v : BVal)    -- `put_if` / `insert_if`
+  | putSome (k : Bytes) (v : Option BVal)      -- `put_some` / `insert_some`
+  | extend (l : List (Bytes × BVal))           -- `extend`
+
+/-- the `(key, value)` pushes / inserts one call performs, in order -/
+def BOp.pairs : BOp → List (Bytes × Term)
+  | .put k v => [(k, v.into)]
+  | .putAtom k a => [(k, .atom a)]
+  | .putFlag k => [(k, .atom kTrue)]
+  | .putTerm k t => [(k, t)]
+  | .putIf c k v => if c then [(k, v.into)] else []
+  | .putSome k (some v) => [(k, v.into)]
+  | .putSome _ none => []
+  | .extend l => l.map fun kv => (kv.1, kv.2.into)
+
+def bopPairs (ops : List BOp) : List (Bytes × Term) := ops.flatMap BOp.pairs
+
+/-- a chain of `KeywordListBuilder` calls, then `len`, `is_empty`, `build` -/
+def kwRun (ops : List BOp) : Nat × Bool × Term :=
+  ((bopPairs ops).length, (bopPairs ops).isEmpty, kwBuild (bopPairs ops))
+
+/-- a chain of `AtomKeyMapBuilder` calls, then `len`, `is_empty`, `build` -/
+def akmRun (ops : List BOp) : Nat × Bool × Term :=
+  ((mkMap (bopPairs ops)).length, (mkMap (bopPairs ops)).isEmpty, akmBuild (bopPairs ops))
+
 /-- `AtomKeyMapBuilder::build_struct(module)` -/
 def akmBuildStruct (ps : List (Bytes × Term)) (module : Bytes) : Term :=
   .map (mkMap (ps ++ [(kStruct, .atom (elixirDot ++ module))]))
@@ -663,8 +822,9 @@ def toMapRec : Nat → Term → Term
 
 `wireNorm t` is the term `decode (encode t)` returns for the constructors the wrappers use (integers outside the
 32-bit range come back as big integers, `List([])` as `Nil`, `String` as `Binary`, map entries are re-inserted).
-It is *checked by execution* against both the real codec and the Lean codec model on every wire case of the
-correspondence run (`c20wire`), and not proved equal to `decode ∘ encode` here (that is C01's theorem). -/
+It is proved equal to the `wire` of C01's round-trip theorem for every well-formed term (Lemmas/ElixirWire.lean:
+`wireNorm_eq_wire`), so `decode x (encode t) = wireNorm t` is a theorem about the codec model (`C20_wire_is_the_codec`);
+the correspondence run still compares it with the real codec on every wire case (`c20wire`). -/
 
 def wireInt (i : Int) : Term :=
   if -2147483648 ≤ i ∧ i ≤ 2147483647 then .int i else .big (i < 0) (natDigits i.natAbs)
@@ -681,6 +841,7 @@ def wireNorm : Term → Term
     | t' => .ilist (wireNormL l) t'
   | .tuple l => .tuple (wireNormL l)
   | .map m => .map (wireNormKV m [])
+  | .ifun a u i nf m oi ou p fr => .ifun a u i nf m oi ou p (wireNormL fr)
   | t => t
 def wireNormL : List Term → List Term
   | [] => []
